@@ -212,3 +212,190 @@ Section GlobalStatements.
       same_set (lents (rlog ra)) (lents (rlog rb)) ->
       forall k, alookup bytes_eqb k (rdoc ra) = alookup bytes_eqb k (rdoc rb).
 End GlobalStatements.
+
+(** * Replication status (C19) *)
+From Orbit Require Export Model.Status.
+
+Definition status_le (a b : status) : Prop := s_progress a <= s_progress b /\ s_max a <= s_max b.
+
+(** event sequences of one open store: log lengths never decrease, times are non-negative *)
+Fixpoint ev_wf (len0 : Z) (evs : list sev) : Prop :=
+  match evs with
+  | [] => True
+  | e :: r => len0 <= ev_len_before e /\ ev_len_before e <= ev_len e /\ 0 <= ev_time e /\ ev_wf (ev_len e) r
+  end.
+
+(** C19 monotone: with the monotone maximum, along every event sequence neither value
+    ever decreases and progress <= max *)
+Definition S_status_monotone : Prop :=
+  forall sp evs s,
+    s_progress s <= s_max s ->
+    forall i a b,
+      nth_error (trace_status true sp evs s) i = Some a ->
+      nth_error (trace_status true sp evs s) (S i) = Some b ->
+      status_le a b /\ s_progress b <= s_max b.
+
+(** the pinned commit's maximum can regress (on a well-formed event sequence) *)
+Definition S_status_refuted_max : Prop :=
+  exists evs, ev_wf 0 evs /\
+    exists i a b, nth_error (trace_status false false evs status0) i = Some a /\
+                  nth_error (trace_status false false evs status0) (S i) = Some b /\ s_max b < s_max a.
+
+(** C19 at rest: after a write, a merge (or, with [sp], a snapshot load) closing a history
+    whose announced times and lengths never exceed the final length L: progress = max = L *)
+Definition S_status_at_rest : Prop :=
+  forall sp evs L last,
+    0 <= L ->
+    (forall e, In e (evs ++ [last]) -> ev_time e <= L /\ ev_len e <= L /\ ev_len_before e <= L) ->
+    ((exists t, last = EvWrite t L) \/ last = EvMerged L \/ (sp = true /\ exists mc lb, last = EvSnapshot mc lb L)) ->
+    run_status true sp (evs ++ [last]) status0 = mkS L L.
+
+(** the pinned commit leaves progress behind after a snapshot load *)
+Definition S_status_refuted_snapshot : Prop :=
+  run_status true false [EvSnapshot 4 0 4] status0 = mkS 0 4.
+
+(** Load from disk: one progress event per fetched entry / cached head, all before the
+    join (len = 0), in any order: when the times cover 1..T (a log whose largest time is T
+    holds an entry of every smaller time), progress = max = T at rest. *)
+Definition S_status_after_load : Prop :=
+  forall sp (times : list Z) T,
+    0 <= T -> (forall t, In t times -> 0 < t <= T) -> (forall v, 0 < v <= T -> In v times) ->
+    run_status true sp (map (fun t => EvProgress t 0) times) status0 = mkS T T.
+
+(** * Wire codecs (C12, C13, C20) *)
+From Orbit Require Export Model.Wire Model.Transport Model.Emitter Model.Writers.
+
+Definition S_uvarint_roundtrip : Prop :=
+  forall (x : N) (rest : bytes), (x < two64)%N -> read_uvarint (put_uvarint x ++ rest) = inl (x, rest).
+
+Definition bytes_ok (bs : bytes) : Prop := Forall (fun b => (b < 256)%N) bs.
+
+(** C12/C20: a frame within the limit decodes to itself, whatever follows *)
+Definition S_frame_roundtrip : Prop :=
+  forall uc (p rest : bytes),
+    (N.of_nat (length p) <= frame_cap)%N ->
+    frame_decode uc (frame_encode p ++ rest) = Ok p.
+
+(** C20: an oversized frame is refused *)
+Definition S_frame_oversize_refused : Prop :=
+  forall uc (p rest : bytes),
+    (frame_cap < N.of_nat (length p))%N -> (N.of_nat (length p) < two63)%N ->
+    frame_decode uc (frame_encode p ++ rest) = Err EBadInput.
+
+(** C12: with the unsigned comparison no byte string makes the decoder panic, and a
+    decoded payload never exceeds the limit *)
+Definition S_frame_total : Prop :=
+  forall bs, bytes_ok bs ->
+    match frame_decode true bs with
+    | Panic _ => False
+    | Ok p => (N.of_nat (length p) <= frame_cap)%N
+    | Err _ => True
+    end.
+
+(** the pinned commit panics on a length prefix >= 2^63 *)
+Definition S_frame_refuted_signed : Prop :=
+  exists bs, bytes_ok bs /\ frame_decode false bs = Panic PMakeLen.
+
+(** C13: frames shorter than 64 KiB round-trip; trailing byte ignored *)
+Definition S_snap_roundtrip : Prop :=
+  forall ro (frames : list bytes) bs,
+    Forall (fun f => (length f < 65536)%nat) frames ->
+    snap_encode ro frames = Ok bs -> snap_decode (length frames) bs = Some frames.
+
+(** with the size check, saving either fails or produces a loadable snapshot *)
+Definition S_snap_save_ok_or_error : Prop :=
+  forall (frames : list bytes) bs,
+    snap_encode true frames = Ok bs -> snap_decode (length frames) bs = Some frames.
+
+(** the pinned commit silently writes an unloadable snapshot for a 64 KiB frame *)
+Definition S_snap_refuted_truncation : Prop :=
+  exists frames bs, snap_encode false frames = Ok bs /\ snap_decode (length frames) bs <> Some frames.
+
+(** GetQueue never panics when sized by the unfinished tasks, and lists exactly them *)
+Definition S_get_queue_total : Prop :=
+  forall qlen tasks,
+    get_queue true qlen tasks = Ok (map fst (filter (fun t => negb (snd t =? 2)%N) tasks)).
+
+(** the pinned commit panics as soon as the task table holds a finished task *)
+Definition S_get_queue_refuted : Prop :=
+  exists qlen tasks, (qlen <= length tasks)%nat /\ get_queue false qlen tasks = Panic PIndexRange.
+
+(** * Transport (C20) *)
+
+(** for duplicate-free snapshots one poll reports exactly new\old as joins and old\new as leaves, each once *)
+Definition S_peers_diff_exact : Prop :=
+  forall old new, NoDup old -> NoDup new ->
+    let '(j, l) := peers_diff old new in
+    NoDup j /\ NoDup l /\
+    (forall p, In p j <-> In p new /\ ~ In p old) /\
+    (forall p, In p l <-> In p old /\ ~ In p new).
+
+(** over any sequence of duplicate-free snapshots, replaying the emitted events yields the
+    current membership: every change is reported exactly once *)
+Definition S_watch_tracks_membership : Prop :=
+  forall snaps, Forall (@NoDup N) snaps ->
+    forall p, In p (fold_left apply_event (watch [] snaps) []) <-> In p (last snaps []).
+
+(** between two consecutive polls with equal membership nothing is emitted *)
+Definition S_watch_no_spurious : Prop :=
+  forall old new, (forall p, In p old <-> In p new) -> poll_events old new = [].
+
+(** a peer never receives its own messages; all others are forwarded once, in order, unchanged *)
+Definition S_forward_spec : Prop :=
+  forall self msgs,
+    (forall m, In m (forward self msgs) -> fst m <> self) /\
+    forward self (filter (fun m => negb (fst m =? self)%N) msgs) = forward self msgs /\
+    (forall m, In m msgs -> fst m <> self -> In m (forward self msgs)) /\
+    ((forall m, In m msgs -> fst m <> self) -> forward self msgs = msgs).
+
+(** both ends derive the same channel name; distinct unordered pairs give distinct names *)
+Definition S_channel_sym : Prop :=
+  forall a b, channel_id a b = channel_id b a.
+Definition S_channel_inj : Prop :=
+  forall a b c d, channel_id a b = channel_id c d -> (a = c /\ b = d) \/ (a = d /\ b = c).
+
+(** * Legacy emitter (C16) *)
+
+(** with in-flight tracking: for every capacity and every schedule, what the consumer
+    has received followed by everything in flight is exactly what was emitted, in order *)
+Definition S_emitter_fifo : Prop :=
+  forall cap sched,
+    let s := erun true cap sched einit in
+    e_out s ++ inflight s = emitted sched.
+
+(** hence: received is a prefix of emitted; at quiescence it is all of it *)
+Definition S_emitter_lossless : Prop :=
+  forall cap sched,
+    let s := erun true cap sched einit in
+    (exists rest, emitted sched = e_out s ++ rest) /\ (quiescent s -> e_out s = emitted sched).
+
+(** progress: if anything is in flight and cap >= 1, some thread can move *)
+Definition S_emitter_progress : Prop :=
+  forall cap s, (1 <= cap)%nat -> inflight s <> [] ->
+    exists l, l <> LEmit 0%N /\ (forall x, l <> LEmit x) /\ estep true cap s l <> None.
+
+(** the pinned commit reorders *)
+Definition S_emitter_refuted : Prop :=
+  exists cap sched, (1 <= cap)%nat /\
+    let s := erun false cap sched einit in
+    quiescent s /\ e_out s <> emitted sched.
+
+(** * Concurrent writers (C17) *)
+
+(** with an atomic write path: for every number of writers and every schedule, when all
+    are done the returned entries are pairwise distinct, all are in the log, the view
+    covers the whole log, and recovery from the cached head restores all of them *)
+Definition S_writers_atomic : Prop :=
+  forall n sched,
+    let s := wrun true sched (winit n) in
+    all_done s ->
+    NoDup (returned s) /\ length (returned s) = n /\
+    (forall e, In e (returned s) -> (1 <= e <= w_log s)%nat) /\
+    w_log s = n /\ w_view s = w_log s /\ recovered s = w_log s.
+
+(** the pinned commit can persist heads out of order (an acknowledged write is lost
+    after a restart) and can leave a stale view *)
+Definition S_writers_refuted_recovery : Prop :=
+  exists n sched, let s := wrun false sched (winit n) in all_done s /\ (recovered s < w_log s)%nat.
+Definition S_writers_refuted_view : Prop :=
+  exists n sched, let s := wrun false sched (winit n) in all_done s /\ (w_view s < w_log s)%nat.
